@@ -13,7 +13,10 @@ STRUCT = ["omitted", "true", "false"]
 EXTS = ["omitted", "rs", "rs+x", "x"]      # (an explicit empty list is an error exit, below)
 LOCK = ["absent", "valid_ahead", "corrupt", "empty", "out_of_range", "negative", "float", "conflict_markers", "line_plus_junk", "nested_key",
         # a scratch copy of the lock left behind by a killed run is not the lock: same expectations as without it
-        "absent+stale_scratch", "valid_ahead+stale_scratch"]
+        "absent+stale_scratch", "valid_ahead+stale_scratch",
+        # a valid lock reached through a symbolic link; locks that are not text at all (UTF-16 as a PowerShell redirect writes it,
+        # a Latin-1 byte, binary junk): unparsable, hence ignored
+        "valid_ahead_via_symlink", "utf16", "latin1_byte", "binary"]
 MODE = ["check", "edit"]
 TREE = ["missing", "none_missing"]
 LOCKVAL = 1000
@@ -40,7 +43,11 @@ LOCK_TEXT = {"absent": None, "valid_ahead": core.lock_text(LOCKVAL), "corrupt": 
              "conflict_markers": core.LOCK_HEADER + "<<<<<<< HEAD\nnext_reference_id: 2\n=======\nnext_reference_id: 2000\n>>>>>>> feature\n",
              "line_plus_junk": core.LOCK_HEADER + "next_reference_id: 2\n}}} not yaml {{{ : :\n\t- [\n",
              "nested_key": core.LOCK_HEADER + "cache:\n  next_reference_id: 2\n",
-             "absent+stale_scratch": None, "valid_ahead+stale_scratch": core.lock_text(LOCKVAL)}
+             "absent+stale_scratch": None, "valid_ahead+stale_scratch": core.lock_text(LOCKVAL),
+             "valid_ahead_via_symlink": core.lock_text(LOCKVAL),
+             "utf16": b"\xff\xfe" + core.lock_text(2).encode("utf-16-le"),
+             "latin1_byte": (core.LOCK_HEADER + "# gr\xfc\xdfe\nnext_reference_id: 2\n").encode("latin-1"),
+             "binary": bytes(range(256)) * 3}
 
 
 def expected(p):
@@ -85,7 +92,14 @@ def run_point(built, p, cfgform="absolute"):
         cfg = box.write("Breadlog.yaml", config_text(p))
         lockp = os.path.join(box.proj, "Breadlog.lock")
         if LOCK_TEXT[lk] is not None:
-            open(lockp, "w").write(core.lock_text(LOCKVAL) if lk.startswith("valid_ahead") else LOCK_TEXT[lk])
+            text = core.lock_text(LOCKVAL) if lk.startswith("valid_ahead") else LOCK_TEXT[lk]
+            target = lockp
+            if lk == "valid_ahead_via_symlink":
+                target = os.path.join(box.proj, "shared", "workspace.lock")
+                os.makedirs(os.path.dirname(target))
+                os.symlink(os.path.join("shared", "workspace.lock"), lockp)
+            with open(target, "wb") as f:
+                f.write(text if isinstance(text, bytes) else text.encode())
         if lk.endswith("+stale_scratch"):
             open(lockp + ".tmp", "w").write([core.lock_text(2), core.lock_text(5000), core.LOCK_HEADER, ""][hash(tuple(p)) % 4])
         before = core.snapshot(box.root)
@@ -115,7 +129,9 @@ def run_point(built, p, cfgform="absolute"):
     src_changed = sorted(c for c in changed if c.startswith("proj/src/"))
     other_changed = sorted(c for c in changed if not c.startswith("proj/src/") and c != "proj/Breadlog.lock"
                            # replacing the lock goes through its scratch name: an edit run with the cache on may consume a stale one
-                           and not (c == "proj/Breadlog.lock.tmp" and exp["cache"] and mode == "edit"))
+                           and not (c == "proj/Breadlog.lock.tmp" and exp["cache"] and mode == "edit")
+                           # a lock that is a symbolic link may be updated through the link or replaced by a regular file
+                           and not (c == "proj/shared/workspace.lock" and exp["cache"] and mode == "edit"))
     if other_changed:
         v.append(("unrelated-file-changed", {"paths": other_changed}))
     if not exp["cache"]:
